@@ -12,13 +12,13 @@ from vmon.util import Mon
 
 ID = 'C08'
 RULE = ('crystal pool x random inputs (all groups randomised, sigma 0.3..1) x omega2 scaling 10^k, k=-3..16 (all omega2 barriers '
-        'lowered by k ln10, and - when there are several exchange classes - the first class alone); forced algorithm pairs for k<=6, default selection for all k; non-trivial = scaling changes Lss by '
+        'lowered by k ln10, and - when there are several exchange classes - the first class alone); forced algorithm pairs for k<=6, default selection for all k; at k in {0,5,9,11,13} also with every rate multiplied by 1e-9 and 1e5 (L0vv and Lss must scale exactly); non-trivial = scaling changes Lss by '
         '>1e-9 relative; distinct = (crystal, Nthermo, input, k)')
 ASSUMPTIONS = ['agreement tolerance 1e-6 x scale for scalings <= 1e6 (observed 6e-8 FCC, 7e-10 HCP)',
                'smooth approach: for k >= 9 the step |L(10^(k+1)) - L(10^k)| must not exceed max(3 x previous step, 1e-6 x scale), and '
                'every tensor stays finite and symmetric (1e-6 x scale)',
                'the standard algorithm is taken as numerically valid while max|G.om2| < 1e8 (the package default threshold)']
-REQUIRED_OBS = {'eval:C08:algorithms-agree:Lss': 40, 'eval:C08:finite': 100, 'eval:C08:smooth-limit': 40,
+REQUIRED_OBS = {'eval:C08:rate-scale:Lss': 60, 'eval:C08:algorithms-agree:Lss': 40, 'eval:C08:finite': 100, 'eval:C08:smooth-limit': 40,
                 'large_branch_lines': 1, 'small_branch_lines': 1}
 CASE_TIMEOUT = 900
 QUICK = [('fcc', 1), ('bcc', 1), ('hcp', 1), ('square', 1), ('honey', 1), ('omega', 1), ('tria', 1), ('lieb', 1), ('diamond', 1),
@@ -83,6 +83,22 @@ def run_case(case):
                             mon.close(a, b, 1e-6, 'C08:algorithms-agree:' + nm, dt, tags, scale=max(sc, np.abs(b).max()))
                         for nm, a, b in zip(('L0vv', 'Lss', 'Lsv', 'L1vv'), Ld, pair[1]):
                             mon.close(a, b, 1e-6, 'C08:default=standard:' + nm, dt, tags, scale=max(sc, np.abs(b).max()))
+                    # the same input with every rate multiplied by a common factor (low-temperature data: rates of 1e-9, or 1e5): the choice
+                    # of algorithm and the result must follow the rate RATIOS, so L scales with the factor exactly
+                    if kk in (0, 5, 9, 11, 13) and not split and not ('multi_wyckoff' in tags and kk >= 4) \
+                            and not ('origin_states' in tags and 'rate_spread>=1e3' in tags):
+                        for lnf in (np.log(1e-9), np.log(1e5)):
+                            a2 = [x.copy() for x in args]
+                            for q in (3, 4, 5): a2[q] = a2[q] - lnf
+                            try:
+                                Lf = [np.array(x) for x in diff.Lij(*a2)]
+                            except Exception as e:
+                                mon.fail('C08:rate-scale:raises:' + type(e).__name__, 'rates x %.0e, scaling 1e%d %s' % (np.exp(lnf), kk, desc), tags)
+                                continue
+                            for nm, a, b in zip(('L0vv', 'Lss'), (Lf[0], Lf[1]), (Ld[0], Ld[1])):
+                                mon.close(a * np.exp(-lnf), b, 1e-6, 'C08:rate-scale:' + nm,
+                                          lambda: 'all rates x %.0e at exchange scaling 1e%d: %s/factor = %s, unscaled %s %s' % (
+                                              np.exp(lnf), kk, nm, (a * np.exp(-lnf)).tolist(), b.tolist(), desc), tags, scale=max(sc, np.abs(b).max()))
                     if prev is not None:
                         steps = [np.abs(a - b).max() for a, b in zip(Ld[1:], prev[1:])]
                         if kk >= 9 and prevstep is not None:
